@@ -204,6 +204,8 @@ macro_rules! confine_flavour {
                 drop(spokes);
                 drop(hub);
             });
+            // work the library may have handed to a detached thread shows up a little later
+            op!("drop (deferred to another thread)", std::thread::sleep(std::time::Duration::from_millis(40)));
             ops
         }
     };
